@@ -1,4 +1,5 @@
 import Svgbob.Proofs.LineRun
+import Svgbob.Proofs.ScopeLines
 import Svgbob.Proofs.SourceConstants
 /-!
 # C09 — straight runs become one line; no two output lines are collinear and touching
@@ -20,6 +21,26 @@ theorem no_collinear_touching_pair (len : List Char → Nat) (frags : List FragS
       pre ++ ⟨sp, .line s e b⟩ :: mid ++ ⟨sp', .line s' e' b'⟩ :: post) :
     ¬ CollinearTouching s e s' e' :=
   Svgbob.no_collinear_touching_pair len frags pre mid post sp sp' s e s' e' b b' h
+
+/-- **…for a whole scope, in either order, across its contact groups**: take any span (any
+characters and glyphs of the tables, any neighbours); in the flattened list of its contact groups no
+two fragments at different positions are plain lines that are collinear and touching — whichever of
+the two is taken first. Uses: every line the tables can produce is stored start-before-end on the
+quarter-cell grid (decided over the regenerated tables), merging keeps that, and for such lines
+"collinear and touching" is symmetric. -/
+theorem scope_has_no_collinear_touching_lines (len : List Char → Nat) (s : Span) :
+    ((contactsOf len s).flatMap id).Pairwise NotMergeableLines :=
+  contactsOf_lines_not_mergeable len s
+
+/-- every line of every behaviour row and of every glyph is a proper grid line (regenerated tables) -/
+theorem table_lines_are_proper :
+    Gen.asciiTable.all (fun en => en.behavior.all fun row => row.2.all lineOkB) = true ∧
+    Gen.unicodeTable.all (fun g => g.2.all lineOkB) = true := tables_lineOk
+
+/-- for proper grid lines the relation does not depend on which line comes first -/
+theorem collinear_touching_is_symmetric (s e s' e' : Pt) (hs : s.cmp e = .lt) (hs' : s'.cmp e' = .lt)
+    (hg : OnGrid s ∧ OnGrid e) (hg' : OnGrid s' ∧ OnGrid e') (h : CollinearTouching s e s' e') :
+    CollinearTouching s' e' s e := lineCanMerge_symm s e s' e' hs hs' hg hg' h
 
 /-- the loop that produced that list ran to its fixpoint: another pass changes nothing -/
 theorem merge_reaches_fixpoint (len : List Char → Nat) (frags : List FragSpan) :
